@@ -5,7 +5,7 @@ import vf
 ID = 'C20'
 FLAVORS = ['static']
 RULE = ('EQ histories on the static-heap build (-DUSE_MEMORY_ALLOCATION_FREE=0): every sequence up to length 4 (quick) / 6 (thorough) over {push with texts of length 0..heap size, '
-        'push without text, pop, SYST:ERR?, clear, count} for heap sizes 2..12 and capacities 1..4 (sampled when the product exceeds 6000 per configuration), plus random long histories on heaps up to 64 bytes; '
+        'push without text, push of the empty string with and without an explicit length, pop, SYST:ERR?, clear, count} for heap sizes 2..12 and capacities 1..4 (sampled when the product exceeds 6000 per configuration), plus random long histories on heaps up to 64 bytes; '
         'the heap is an exact-size allocation under ASan and its bytes, write index and free count are compared with the model after every operation. '
         'Non-trivial: a history in which a text was dropped or the heap wrapped; distinct = distinct lines.')
 MODELLED = 'scpiheap_init/strndup/get_parts/free and the error queue over them are modelled in HeapModel (byte array, wr, count)'
@@ -26,7 +26,9 @@ def oracle(case, out):
         if f[0] == 'P':
             code, info, ln = int(f[1]), f[2], int(f[3])
             text = None
-            if info != '-':
+            if info == '=':
+                text = None          # the empty string: nothing to store
+            elif info != '-':
                 t = bytes.fromhex(info).split(b'\x00')[0]
                 text = t[:(ln if ln else 255)]
             if len(q) < cap:
@@ -64,7 +66,7 @@ def streams(tier, rng):
     for hs in range(2, 13):
         for cap in (1, 2, 3, 4):
             texts = [b'', b'a', b'bc', b'x' * (hs // 2), b'y' * (hs - 1), b'z' * hs, b'w' * (hs + 1)]
-            A = ['P %d %s 0 0' % (-100 - i, t.hex() if t else '-') for i, t in enumerate(texts)] + ['P 9 - 0 0', 'O', 'S', 'C', 'N', 'P -113 %s 2 0' % vf.hx('qrstu')]
+            A = ['P %d %s 0 0' % (-100 - i, t.hex() if t else '-') for i, t in enumerate(texts)] + ['P 9 - 0 0', 'P 10 = 0 0', 'P 11 = 4 0', 'O', 'S', 'C', 'N', 'P -113 %s 2 0' % vf.hx('qrstu')]
             for d in range(1, depth + 1):
                 total = len(A) ** d
                 if total > (150 if tier == 'quick' else 3000):
@@ -82,7 +84,7 @@ def streams(tier, rng):
             if rng.random() < 0.55:
                 n = rng.choice([0, 1, 2, hs // 3, hs // 2, hs - 1, hs, hs + 1])
                 t = bytes(rng.choice(b'abcdefgh";') for _ in range(max(0, n)))
-                ops.append('P %d %s %d 0' % (rng.choice([-100, -113, 5, 77]), t.hex() if t else '-', rng.choice([0, 0, 0, 1, 3])))
+                ops.append('P %d %s %d 0' % (rng.choice([-100, -113, 5, 77]), t.hex() if t else rng.choice(['-', '=']), rng.choice([0, 0, 0, 1, 3])))
             else:
                 ops.append(rng.choice(['O', 'O', 'S', 'S', 'C', 'N']))
         cases.append('|'.join(['EQ %d %d' % (cap, hs)] + ops))
